@@ -501,11 +501,11 @@ func init() {
 		pretty.WriteString("\n  ] ,\n \"k\" : 1 }")
 		bigSrc := func(d *rj.Value) []r69.Op {
 			return []r69.Op{{Kind: "copy", From: "/big", Path: "/c"}, {Kind: "test", Path: "/big/0", Value: rj.MustParse(`"s000<"`), HasValue: true},
-				{Kind: "copy", From: "/big", Path: "/big/-"}, {Kind: "copy", From: "/k", Path: "/k2"}}
+				{Kind: "copy", From: "/big", Path: "/big/-"}, {Kind: "copy", From: "/k", Path: "/k2"}, {Kind: "copy", From: "/c", Path: "/c2"}}
 		}
 		large := &seqProp{ID: "C12", Docs: []string{pretty.String()}, Opts: []r69.Options{{Neg: true, EscapeHTML: true}, {Neg: true, EscapeHTML: false}}, Depth: 3,
 			Alpha: []*AlphaCfg{{Custom: bigSrc}}, Judge: judgeC12,
-			Rule: "v5 per-call option, SCALE: an 8 KB pretty-printed array copied raw and after a test has parsed it, sequences <= 3, limits around every total (the duplicate is compact: 2.5 / 4.6 KB)"}
+			Rule: "v5 per-call option, SCALE: an 8 KB pretty-printed array copied raw, after a test has parsed it, and as a copy of the copy, sequences <= 3, limits around every total (the duplicate is compact: 2.5 / 4.6 KB)"}
 		return append([]*seqProp{perCall, defaults, legacy, viaRoot, chain, large}, extra...)
 	}, 240*time.Second, 25*time.Minute)
 }
